@@ -504,7 +504,8 @@ def second_order(rng, mc: MeshCase, curved=None):
     from dataclasses import replace
     X = _ref_sample_points(mc.kind)
     for attempt in range(8):
-        amp = h / 10 / 4 ** attempt
+        # a displacement d of an edge node turns the edge tangents at the vertices by 4d: h/32 keeps them within ~12%
+        amp = h / 32 / 4 ** attempt
         p = m2.doflocs.copy()
         p[:, nv:] += snap(rng.uniform(-amp, amp, size=p[:, nv:].shape), 20)
         m3 = replace(m2, doflocs=p)
@@ -513,7 +514,7 @@ def second_order(rng, mc: MeshCase, curved=None):
         except Exception:  # the library refuses exactly-zero determinants: not a usable cell
             continue
         ref = np.abs(det).max(axis=1, keepdims=True)
-        if (np.sign(det) == np.sign(det[:, :1])).all() and (np.abs(det) > 0.2 * ref).all():
+        if (np.sign(det) == np.sign(det[:, :1])).all() and (np.abs(det) > 0.3 * ref).all():
             return MeshCase(m3, mc.kind, 2, desc, affine_cells=False, straight=False, planar_faces=False)
     desc["curved"] = False
     return MeshCase(m2, mc.kind, 2, desc, affine_cells=mc.affine_cells, straight=True,
@@ -522,7 +523,7 @@ def second_order(rng, mc: MeshCase, curved=None):
 
 def _ref_sample_points(kind):
     d = DIM[kind]
-    g = np.linspace(0, 1, 4)
+    g = np.linspace(0, 1, 7 if d < 3 else 5)
     pts = np.array(list(itertools.product(g, repeat=d))).T
     if kind in ("tri", "tet"):
         pts = pts[:, pts.sum(0) <= 1 + 1e-12]
